@@ -115,11 +115,14 @@ fn enc_event(e: &TerminalEvent) -> Value {
         TerminalEvent::KeyboardLevel(n) => json!({"level": n}),
         TerminalEvent::Termcap(_) => json!("termcap"),
         TerminalEvent::DeviceAttrs(set) => json!({"attrs": set.iter().collect::<Vec<_>>()}),
-        TerminalEvent::Color { name, .. } => match name {
-            TerminalColor::Foreground => json!({"color": [0, 0]}),
-            TerminalColor::Background => json!({"color": [1, 0]}),
-            TerminalColor::Palette(i) => json!({"color": [2, i]}),
-        },
+        TerminalEvent::Color { name, color } => {
+            let c = [color.red(), color.green(), color.blue()];
+            match name {
+                TerminalColor::Foreground => json!({"color": [0, 0, c]}),
+                TerminalColor::Background => json!({"color": [1, 0, c]}),
+                TerminalColor::Palette(i) => json!({"color": [2, i, c]}),
+            }
+        }
         TerminalEvent::FaceGet(f) => json!({"faceget": [enc_rgb(&f.fg), enc_rgb(&f.bg)]}),
         TerminalEvent::Command(TerminalCommand::FaceModify(f)) => enc_facem(f),
         TerminalEvent::Paste(s) => json!({"paste": jbytes(s.as_bytes())}),
@@ -384,7 +387,14 @@ fn chev(v: &Value) -> String {
         "decmode" => format!("HDecMode {} {}", at(0), at(1)),
         "attrs" => format!("HDevAttrs {}", clist(a.as_array().unwrap().iter().map(cn_v))),
         "kitty" => format!("HKitty {} {} {}", at(0), copt(a[1].as_u64().map(|n| n.to_string())), cbool(a[2].as_bool().unwrap_or(false))),
-        "color" => format!("HColor {} {}", at(0), at(1)),
+        "color" => format!(
+            "HColor {} {} ({}, {}, {})",
+            at(0),
+            at(1),
+            cn_v(&a[2][0]),
+            cn_v(&a[2][1]),
+            cn_v(&a[2][2])
+        ),
         "paste" => format!("HPaste {}", cbytes(&vbytes(a))),
         "faceget" => format!("HFaceG {} {}", crgb(&a[0]), crgb(&a[1])),
         "facem" => format!(
@@ -552,7 +562,11 @@ fn boundary_piece(rng: &mut Rng, which: u64) -> (Vec<u8>, &'static str) {
         5 => (format!("\x1b[<{};{};{}{}", pk(rng, &MOUSE_CODES), pk(rng, &COORDS), pk(rng, &COORDS), if rng.chance(1, 2) { 'M' } else { 'm' }).into_bytes(), "b.mouse"),
         6 => (format!("\x1b[{};{}R", pk(rng, &COORDS), pk(rng, &COORDS)).into_bytes(), "b.cpr"),
         7 => (format!("\x1bP1$r{}m\x1b\\", sgr_colour(rng)).into_bytes(), "b.decrpss"),
-        _ => (format!("\x1b]4;{};rgb:{:x}/{:x}/{:x}\x07", pk(rng, &PALETTE), rng.below(65536), rng.below(256), rng.below(16)).into_bytes(), "b.osc"),
+        _ => {
+            const RGB: [&str; 14] = ["", "/", "//", "ff//ff", "ff/ff/", "ff/ff", "f/f/f", "fff/fff/fff", "ffff/0000/8000", "fffff/0/0", "+f/+ff/+fff", "+/0/0", "gg/0/0", "1/22/333/4444"];
+            let id = if rng.chance(1, 2) { format!("4;{}", pk(rng, &PALETTE)) } else { rng.pick(&[10u32, 11]).to_string() };
+            (format!("\x1b]{};rgb:{}{}", id, RGB[rng.below(RGB.len() as u64) as usize], if rng.chance(1, 2) { "\x07" } else { "\x1b\\" }).into_bytes(), "b.osc")
+        }
     }
 }
 
@@ -606,12 +620,15 @@ fn piece(rng: &mut Rng, which: u64) -> (Vec<u8>, &'static str) {
         10 => (format!("\x1b_G{}=;\x1b\\", if rng.chance(1, 2) { "i" } else { "p" }).into_bytes(), "kitty"),
         11 => {
             let term = if rng.chance(1, 2) { "\x1b\\" } else { "\x07" };
-            let body = match rng.below(5) {
+            const BODIES: [&str; 26] = [
+                "rgb:", "rgb:/", "rgb://", "rgb:///", "rgb:ff//ff", "rgb:ff/ff/", "rgb:/ff/ff", "rgb:ff/ff", "rgb:f/f/f", "rgb:fff/fff/fff",
+                "rgb:ffff/0000/8000", "rgb:fffff/0/0", "rgb:+f/+ff/+fff", "rgb:+/0/0", "rgb:-f/0/0", "rgb:gg/0/0", "rgb:ff/ff/ff/ff", "rgb:FF/Aa/0",
+                "rgb:ff/00/11/", "#", "#fff", "#ff0080", "#ff008080", "red", "", "rgb",
+            ];
+            let body = match rng.below(4) {
                 0 => format!("rgb:{:x}/{:x}/{:x}", rng.below(65536), rng.below(256), rng.below(16)),
-                1 => "#ff0080".to_string(),
-                2 => "rgb:fffff/0/0".to_string(),
-                3 => "red".to_string(),
-                _ => String::new(),
+                1 => format!("rgb:{:04x}/{:03x}/{:02x}", rng.below(65536), rng.below(4096), rng.below(256)),
+                _ => BODIES[rng.below(BODIES.len() as u64) as usize].to_string(),
             };
             let id = if rng.chance(2, 3) { rng.pick(&[10u32, 11, 4, 12]).to_string() } else { d(rng) };
             let mid = if rng.chance(1, 2) { format!("{};", d(rng)) } else { String::new() };
@@ -745,10 +762,10 @@ pub fn generate(rng: &mut Rng, n: usize, tier: &str) -> Vec<Value> {
     }
     // field boundaries: every template several times, single sequence, every single cut;
     // short ones under every way of splitting them into reads
-    for i in 0..(if thorough { 4000 } else { 420 }) {
+    for i in 0..(if thorough { 3000 } else { 420 }) {
         let which = if i % 4 == 3 { 1 } else { 0 };
         let (s, class) = boundary_piece(rng, which);
-        let parts = if s.len() <= (if thorough { 11 } else { 9 }) { all_splits(s.len()) } else { all_single_cuts(s.len()) };
+        let parts = if s.len() <= 9 { all_splits(s.len()) } else { all_single_cuts(s.len()) };
         v.push(json!({"kind":"ev","which":which,"class":class,"input":jbytes(&s),"parts":parts}));
     }
     // UTF-8 boundary set through all three decoders
